@@ -9,6 +9,12 @@
 //!       (other hash, altered payload chunk, swapped chunks under a coherently rewritten footer that keeps cashash, boundaries-section
 //!       version 0 with garbage unpacked offsets, byte flips over headers and footer, truncations, random strings), never panic and
 //!       accept only if the decoded chunks really hash to the requested hash and the returned footer matches the chunk data.
+//!   (d) C06 on synthetic (hash, length) lists: cas_node_hash / file_node_hash == the independent construction for lengths up to
+//!       2^62 (in particular 11 and more decimal digits) at every position of lists of 1..9 entries and for long lists whose
+//!       interior nodes cover more than 10^10 bytes; lists differing only by 10^10 in one length hash differently;
+//!   (e) decoding is a pure function of the bytes: BG4-LZ4 chunks whose data block is intact but whose LZ4 end mark is damaged are
+//!       given to every decoder and validator, and after each of these - and after every validator run on a mutated object - a
+//!       known-good BG4-LZ4 chunk must decode to its exact bytes on the same thread (sync / async single-chunk decoder, range reader).
 //! Prints `WITNESS ...` and exits 1 on the first violation.
 use std::io::{Cursor, Read};
 use std::panic::{catch_unwind, AssertUnwindSafe};
@@ -123,7 +129,8 @@ fn reference_root(list: &[(MerkleHash, usize)]) -> MerkleHash {
                 let mut text = String::new();
                 let mut total = 0;
                 for (h, n) in &level[start..=i] {
-                    text.push_str(&format!("{} : {}\n", h.hex(), n));
+                    // 64 hex digits = the four 64-bit words, each as 16 lower-case hex digits; the length in plain decimal
+                    text.push_str(&format!("{:016x}{:016x}{:016x}{:016x} : {}\n", h[0], h[1], h[2], h[3], n));
                     total += n;
                 }
                 next.push((compute_internal_node_hash(text.as_bytes()), total));
@@ -133,6 +140,55 @@ fn reference_root(list: &[(MerkleHash, usize)]) -> MerkleHash {
         level = next;
     }
     level[0].0
+}
+
+/// C06 on SYNTHETIC (hash, length) lists (no data needed): cas_node_hash and file_node_hash against the independent construction
+/// for extreme lengths - in particular lengths of 11 and more decimal digits - at every position of lists of 1..9 entries, and
+/// for long lists whose interior nodes cover more than 10^10 bytes; lists differing by 10^10 in one length must hash differently.
+fn check_synthetic_lengths() {
+    use merkledb::aggregate_hashes::{cas_node_hash, file_node_hash};
+    let lens: [usize; 11] = [0, 1, 9, 10, 1_000_000_000, 9_999_999_999, 10_000_000_000, 10_000_000_001, 13_107_200_000, 1 << 40, usize::MAX / 4];
+    let salt = [0x5au8; 32];
+    let salted = |root: &MerkleHash| MerkleHash::from(*blake3::keyed_hash(&salt, root.as_bytes()).as_bytes());
+    let show = |l: &[(MerkleHash, usize)]| format!("{:?}", l.iter().map(|x| x.1).collect::<Vec<_>>());
+    let check = |what: &str, list: &[(MerkleHash, usize)]| -> MerkleHash {
+        let want = reference_root(list);
+        let got = guarded(what, || cas_node_hash(list));
+        if got != want {
+            witness(format!("{what}: cas_node_hash over synthetic entries with lengths {} gives {} but the published construction (lines \"<64 hex digits> : <decimal length>\") gives {}", show(list), got.hex(), want.hex()));
+        }
+        match guarded(what, || file_node_hash(list, &salt)) {
+            Ok(f) if f == salted(&want) => {},
+            other => witness(format!("{what}: file_node_hash over synthetic entries with lengths {} gives {:?} but the published construction gives {}", show(list), other.map(|h| h.hex()), salted(&want).hex())),
+        }
+        got
+    };
+    for variant in 0..3u64 {
+        for n in 1..=9usize {
+            let base: Vec<(MerkleHash, usize)> = (0..n).map(|k| (compute_data_hash(format!("synthetic entry {variant}/{n}/{k}").as_bytes()), 1000 * (k + 1) + variant as usize)).collect();
+            for pos in 0..n {
+                let mut roots: Vec<(usize, MerkleHash)> = vec![];
+                for &len in &lens {
+                    let mut list = base.clone();
+                    list[pos].1 = len;
+                    let r = check(&format!("list of {n} entries (hash pattern {variant}), entry {pos} of length {len}"), &list);
+                    roots.push((len, r));
+                }
+                if n >= 2 {
+                    for (i, a) in roots.iter().enumerate() {
+                        if let Some(b) = roots[i + 1..].iter().find(|b| b.1 == a.1) {
+                            witness(format!("two lists of {n} entries (hash pattern {variant}) that differ only in the length of entry {pos} ({} vs {}) get the SAME aggregate hash {}", a.0, b.0, a.1.hex()));
+                        }
+                    }
+                }
+            }
+        }
+    }
+    // interior nodes covering >= 10^10 bytes although every entry is small
+    for (n, each) in [(40usize, 1_000_000_000usize), (40, 3_000_000_001), (200, 64 << 20), (1000, 123_456_789)] {
+        let list: Vec<(MerkleHash, usize)> = (0..n).map(|k| (compute_data_hash(format!("long list {n}/{each}/{k}").as_bytes()), each + k)).collect();
+        check(&format!("list of {n} entries of about {each} bytes each"), &list);
+    }
 }
 
 struct Truth {
@@ -426,6 +482,126 @@ enum Expect {
     Sound,
 }
 
+// ---------------------------------------------------------------------------------------------------------------------------------
+// decoding is a pure function of the serialized bytes: after ANY decode attempt that may have failed on this thread, a known-good
+// ByteGrouping4LZ4 chunk must still decode to its exact bytes through every decoder
+// ---------------------------------------------------------------------------------------------------------------------------------
+
+/// f32 values in [1, 2): constant sign / exponent byte, so byte grouping pays off and the chunk is really stored as BG4-LZ4
+fn unit_floats(seed: u64, n_floats: usize, tail: usize) -> Vec<u8> {
+    let mut x = seed.wrapping_mul(0x9E37_79B9_7F4A_7C15) | 1;
+    let mut out = Vec::with_capacity(4 * n_floats + tail);
+    for _ in 0..n_floats {
+        x ^= x << 13; x ^= x >> 7; x ^= x << 17;
+        let v = 1.0f32 + ((x >> 40) as f32 / (1u64 << 24) as f32) * 0.999;
+        out.extend_from_slice(&v.to_le_bytes());
+    }
+    out.extend((0..tail).map(|i| i as u8));
+    out
+}
+
+struct Probe {
+    chunk: Vec<u8>,
+    stored: Vec<u8>,
+    xorb_tail: Vec<u8>,
+    xorb: Vec<u8>,
+    cas: CasObject,
+}
+static PROBE: std::sync::OnceLock<Probe> = std::sync::OnceLock::new();
+static N_PROBES: std::sync::atomic::AtomicUsize = std::sync::atomic::AtomicUsize::new(0);
+
+fn probe() -> &'static Probe {
+    PROBE.get_or_init(|| {
+        let chunk = unit_floats(1, 120, 1);
+        let mut stored = vec![];
+        serialize_chunk(&chunk, &mut stored, Some(CompressionScheme::ByteGrouping4LZ4)).unwrap();
+        let xorb_chunks: Vec<Vec<u8>> = (0..3).map(|k| unit_floats(10 + k, 90 + 7 * k as usize, k as usize)).collect();
+        let t = truth_of(&xorb_chunks);
+        let data = xorb_chunks.concat();
+        let cb: Vec<(MerkleHash, u32)> = t.list.iter().zip(&t.unpacked).map(|((h, _), o)| (*h, *o)).collect();
+        let mut cur = Cursor::new(vec![]);
+        let (cas, _) = CasObject::serialize(&mut cur, &t.root, &data, &cb, Some(CompressionScheme::ByteGrouping4LZ4)).unwrap();
+        let xorb = cur.into_inner();
+        if stored[4] != 2 || xorb[4] != 2 {
+            println!("infrastructure: the probe chunks are not stored as ByteGrouping4LZ4");
+            std::process::exit(2);
+        }
+        let xorb_tail = xorb_chunks[1..].concat();
+        Probe { chunk, stored, xorb_tail, xorb, cas }
+    })
+}
+
+/// Decodes the known-good BG4-LZ4 data on this thread through the sync and async single-chunk decoders and the xorb range reader.
+fn decode_probe(rt: &tokio::runtime::Runtime, after: impl Fn() -> String) {
+    decode_probe_impl(rt, after, true)
+}
+/// `full` = all three decoders; otherwise only the sync single-chunk decoder (any decoder would trip over left-over state, and the
+/// tripping decode also clears it, so one decode per possibly failed attempt is enough; every 16th call is a full one anyway)
+fn decode_probe_impl(rt: &tokio::runtime::Runtime, after: impl Fn() -> String, full: bool) {
+    let p = probe();
+    let n = N_PROBES.fetch_add(1, std::sync::atomic::Ordering::Relaxed);
+    let full = full || n % 16 == 0;
+    let ctx = || format!("decoding a valid ByteGrouping4LZ4 chunk of {} bytes (f32 data) on the same thread right after {}", p.chunk.len(), after());
+    let judge = |which: &str, r: Result<(Vec<u8>, usize, u32), String>| match r {
+        Ok((d, c, u)) if d == p.chunk && c == p.stored.len() && u as usize == p.chunk.len() => {},
+        Ok((d, c, u)) => witness(format!("{}: {which} returns {} bytes {}(reported stored / unpacked lengths {c} / {u}; the chunk has {} bytes stored in {})", ctx(), d.len(), if d == p.chunk { "" } else { "that differ from the chunk " }, p.chunk.len(), p.stored.len())),
+        Err(e) => witness(format!("{}: {which} fails: {e}", ctx())),
+    };
+    let quiet = |f: &mut dyn FnMut() -> Result<(Vec<u8>, usize, u32), String>| -> Result<(Vec<u8>, usize, u32), String> {
+        catch_unwind(AssertUnwindSafe(f)).unwrap_or_else(|_| Err("panic".into()))
+    };
+    judge("sync deserialize_chunk", quiet(&mut || deserialize_chunk(&mut Cursor::new(&p.stored[..])).map_err(|e| e.to_string())));
+    if !full {
+        return;
+    }
+    judge("async deserialize_chunk", quiet(&mut || rt.block_on(async { let mut r: &[u8] = &p.stored; deserialize_chunk_async(&mut r).await }).map_err(|e| e.to_string())));
+    match catch_unwind(AssertUnwindSafe(|| p.cas.get_bytes_by_chunk_range(&mut Cursor::new(&p.xorb[..]), 1, 3).map_err(|e| e.to_string()))).unwrap_or_else(|_| Err("panic".into())) {
+        Ok(d) if d == p.xorb_tail => {},
+        Ok(d) => witness(format!("{}: get_bytes_by_chunk_range(1, 3) on a valid 3-chunk BG4-LZ4 xorb returns {} bytes that differ from the {} stored ones", ctx(), d.len(), p.xorb_tail.len())),
+        Err(e) => witness(format!("{}: get_bytes_by_chunk_range(1, 3) on a valid 3-chunk BG4-LZ4 xorb fails: {e}", ctx())),
+    }
+}
+
+/// BG4-LZ4 chunks whose single data block is intact but whose trailing 4-byte LZ4 end mark is damaged (it then reads as the header
+/// of a further block): every decoder must fail on them, and must leave no trace for the next decode.
+fn check_damaged_end_mark(rt: &tokio::runtime::Runtime) {
+    for (k, (n_floats, tail)) in [(3000usize, 3usize), (17, 0), (4097, 2), (1, 1), (800, 1)].into_iter().enumerate() {
+        let victim = unit_floats(100 + k as u64, n_floats, tail);
+        let mut good = vec![];
+        serialize_chunk(&victim, &mut good, Some(CompressionScheme::ByteGrouping4LZ4)).unwrap();
+        if good[4] != 2 || good[good.len() - 4..] != [0, 0, 0, 0] {
+            continue; // stored raw (tiny chunk) or unexpected frame layout: nothing to damage here
+        }
+        let n = good.len();
+        for (at, val) in [(n - 4, 0x10u8), (n - 4, 0x01), (n - 3, 0x01), (n - 1, 0x80), (n - 2, 0x7f)] {
+            let mut bad = good.clone();
+            bad[at] = val;
+            let what = format!("a ByteGrouping4LZ4 chunk of {} bytes ({n} stored) whose LZ4 end mark is damaged (stored byte {at} set to {val:#04x})", victim.len());
+            let h = compute_data_hash(&victim);
+            let still_decodes = walk(&bad).map(|w| w.chunks.len() == 1 && w.chunks[0] == victim).unwrap_or(false);
+            let attempts: Vec<(&str, Box<dyn Fn() -> bool + '_>)> = vec![
+                ("sync deserialize_chunk", Box::new(|| deserialize_chunk(&mut Cursor::new(&bad[..])).map(|r| r.0 == victim).unwrap_or(true))),
+                ("async deserialize_chunk", Box::new(|| rt.block_on(async { let mut r: &[u8] = &bad; deserialize_chunk_async(&mut r).await }).map(|r| r.0 == victim).unwrap_or(true))),
+                // (the multi-chunk decoders take an unexpected end of input inside a chunk as the end of the chunk list: "no chunk,
+                // no bytes" is a consistent answer for them)
+                ("sync deserialize_chunks", Box::new(|| deserialize_chunks(&mut Cursor::new(&bad[..])).map(|r| r.0 == victim || (r.0.is_empty() && r.1 == [0])).unwrap_or(true))),
+                ("async deserialize_chunks_from_async_read", Box::new(|| rt.block_on(async { let mut r: &[u8] = &bad; deserialize_chunks_from_async_read(&mut r).await }).map(|r| r.0 == victim || (r.0.is_empty() && r.1 == [0])).unwrap_or(true))),
+                // (an acceptance is sound only if the damaged bytes still decode, by the format rules, to the chunk - e.g. an end mark
+                // turned into an empty stored block)
+                ("the seekable validator", Box::new(|| !matches!(CasObject::validate_cas_object(&mut Cursor::new(&bad[..]), &h), Ok(Some(_))) || still_decodes)),
+                ("the streaming validator", Box::new(|| !matches!(rt.block_on(async { let mut r: &[u8] = &bad; validate_cas_object_from_async_read(&mut r, &h).await }), Ok(Some(_))) || still_decodes)),
+            ];
+            for (which, attempt) in attempts {
+                // a decoder may fail (expected) or, if the damage happens to be harmless, return the right bytes - never wrong ones
+                if !guarded(&format!("{which} on {what}"), || attempt()) {
+                    witness(format!("{which} on {what} returns bytes that are not the chunk's / accepts the object"));
+                }
+                decode_probe(rt, || format!("{which} was given {what}"));
+            }
+        }
+    }
+}
+
 /// Runs both validators on `bytes` for hash `h`.  Soundness oracle for an acceptance: the chunk section decodes by the format rules,
 /// the decoded chunks' independent root equals `h`, and the returned footer equals what the chunk data dictates.
 fn validate_both(rt: &tokio::runtime::Runtime, ctx: &str, bytes: &[u8], h: &MerkleHash, expect_seek: Expect, expect_stream: Expect) {
@@ -480,6 +656,7 @@ fn validate_both(rt: &tokio::runtime::Runtime, ctx: &str, bytes: &[u8], h: &Merk
         Ok(None) => judge("the streaming validator validate_cas_object_from_async_read", None, expect_stream, None),
         Err(e) => judge("the streaming validator validate_cas_object_from_async_read", None, expect_stream, Some(e.to_string())),
     }
+    decode_probe_impl(rt, || format!("both validators were run on: {ctx}"), false);
 }
 
 fn check_validators(rt: &tokio::runtime::Runtime, rng: &mut StdRng, list_name: &str, chunks: &[Vec<u8>], sname: &str, scheme: Scheme, bytes: &[u8], t: &Truth, exhaustive: bool) {
@@ -621,6 +798,10 @@ fn main() {
         eprintln!("note: only {} of 3 equal-length chunks found", eqs.len());
     }
 
+    check_synthetic_lengths();
+    decode_probe(&rt, || "program start".to_string());
+    check_damaged_end_mark(&rt);
+
     let mut lists: Vec<(String, Vec<Vec<u8>>, bool)> = vec![];
     // small list for the exhaustive flips: compressible, incompressible, tiny, equal-length
     let mut small = vec![text(700), random(&mut rng, 300), vec![0x5a], floats(&mut rng, 1027)];
@@ -722,5 +903,6 @@ fn main() {
         let h = compute_data_hash(&s);
         validate_both(&rt, &format!("random byte string #{i} of {n} bytes (VERIF_SEED={seed})"), &s, &h, Expect::Sound, Expect::Sound);
     }
+    eprintln!("{} decode probes", N_PROBES.load(std::sync::atomic::Ordering::Relaxed));
     println!("no violation found");
 }
